@@ -66,8 +66,12 @@ def run(tier, argv):
             ngap += 1
     if ngap == 0:
         raise vlib.Infra("Gaps exported nothing")
+    gpairs = work.path("gaps-pairs.ndjson")
+    with open(gpairs, "w") as f:
+        for l in vlib.tagged_file(rawg, "@@PAIR"):
+            f.write(l + "\n")
     gm = work.path("gaps-mism.ndjson")
-    p = vlib.run_harness(hbin, ["c13gaps", "-cases", gcases, "-out", gm], timeout=3000)
+    p = vlib.run_harness(hbin, ["c13gaps", "-cases", gcases, "-pairs", gpairs, "-out", gm], timeout=3000)
     if p.returncode != 0:
         raise vlib.Infra("c13gaps failed: " + p.stderr.decode()[-2000:])
     sg = semcommon.summary_of(p.stderr)
